@@ -205,9 +205,59 @@ void Env::check_buf(const void *p, const char *entry)
 
 static const char *callee_names[6] = { "rbx", "rbp", "r12", "r13", "r14", "r15" };
 
+// deprecated ("legacy") twins of isal_* entry points with identical argument lists
+struct LegacyTwin {
+        std::string name;
+        void *fn;
+        bool no_status; // twin returns void (or an unspecified value): its rax is not a status
+};
+static std::map<std::string, LegacyTwin> *g_legacy = nullptr;
+extern void *libsym(const char *name, bool required);
+static void legacy_init()
+{
+        g_legacy = new std::map<std::string, LegacyTwin>();
+        auto add = [](const std::string &isal, const std::string &leg, bool no_status) {
+                void *fn = libsym(leg.c_str(), false);
+                if (fn && libsym(isal.c_str(), false))
+                        (*g_legacy)[isal] = LegacyTwin{ leg, fn, no_status };
+        };
+        for (const char *b : { "128", "192", "256" }) {
+                add(std::string("isal_aes_keyexp_") + b, std::string("aes_keyexp_") + b, true);
+                add(std::string("isal_aes_cbc_enc_") + b, std::string("aes_cbc_enc_") + b, true);
+                add(std::string("isal_aes_cbc_dec_") + b, std::string("aes_cbc_dec_") + b, true);
+        }
+        for (const char *b : { "128", "256" }) {
+                for (const char *d : { "enc", "dec" }) {
+                        std::string bd = std::string(d) + "_" + b;
+                        for (const char *suf : { "", "_nt", "_update", "_update_nt", "_finalize" })
+                                add("isal_aes_gcm_" + bd + suf, "aes_gcm_" + bd + suf, true);
+                        add(std::string("isal_aes_xts_") + bd, std::string("XTS_AES_") + b + "_" + d, true);
+                        add(std::string("isal_aes_xts_") + bd + "_expanded_key", std::string("XTS_AES_") + b + "_" + d + "_expanded_key", true);
+                }
+                add(std::string("isal_aes_gcm_init_") + b, std::string("aes_gcm_init_") + b, true);
+                add(std::string("isal_aes_gcm_pre_") + b, std::string("aes_gcm_pre_") + b, true);
+        }
+        for (const char *m : { "mh_sha1", "mh_sha256", "mh_sha1_murmur3_x64_128" })
+                for (const char *op : { "_init", "_update", "_finalize" })
+                        add(std::string("isal_") + m + op, std::string(m) + op, false);
+        add("isal_rolling_hash2_init", "rolling_hash2_init", false);
+        add("isal_rolling_hash2_reset", "rolling_hash2_reset", true);
+}
+
 uint64_t Env::call(const char *entry, void *fn, std::initializer_list<uint64_t> args)
 {
         SimFrame &f = *frame;
+        bool no_status = false;
+        if (legacy_api && entry[0] == 'i' && strncmp(entry, "isal_", 5) == 0) {
+                if (!g_legacy)
+                        legacy_init();
+                auto it = g_legacy->find(entry);
+                if (it != g_legacy->end()) {
+                        entry = it->second.name.c_str();
+                        fn = it->second.fn;
+                        no_status = it->second.no_status;
+                }
+        }
         f.fn = fn;
         size_t n = 0, nst = 0;
         uint64_t *stack_args = (uint64_t *) (uintptr_t) call_rsp;
@@ -366,5 +416,5 @@ stack_done:
         scan_secrets = false;
         if (g_after_call_hook)
                 g_after_call_hook();
-        return rax;
+        return no_status ? 0 : rax;
 }
